@@ -181,7 +181,7 @@ def node_term(cls, key, chain=None, depth=None, index=None, parent=T.NONE, testn
         ev = Evaluator(PROGRAM, 'ecdsa')
         v, _ = ev.construct(cls, [], dict(args))
         nl = distinct_normal_leaves(v)
-        if len(nl) == 1 and T.tag(nl[0]) == 'obj' and set(args) <= set(T.obj_fields(nl[0])):
+        if len(nl) == 1 and T.tag(nl[0]) == 'obj':
             node = nl[0]
             if ppf != T.NONE:
                 if 'parsed_parent_fingerprint' not in T.obj_fields(node):
@@ -189,8 +189,8 @@ def node_term(cls, key, chain=None, depth=None, index=None, parent=T.NONE, testn
                 node = T.obj_set(node, 'parsed_parent_fingerprint', ppf)
             _NODE_CACHE[ck] = node
             return node
-        raise AnalysisError('node_term', '%s(key, chain_code, index, depth, testnet, parent) does not evaluate to one object with '
-                            'those fields: %s' % (cls.split('.')[-1], T.show(v, maxdepth=3)))
+        raise AnalysisError('node_term', '%s(key, chain_code, index, depth, testnet, parent) does not evaluate to one '
+                            'object: %s' % (cls.split('.')[-1], T.show(v, maxdepth=3)))
     return T.obj(cls, dict(args, parsed_parent_fingerprint=ppf, parsed_version=T.NONE, children=T.lst([])))
 
 
